@@ -195,3 +195,7 @@ Proof.
   - apply String.eqb_eq. exact B.
   - apply String.eqb_eq. exact B.
 Qed.
+
+(* a backend of somebody else is invisible to the per-user selection *)
+Lemma for_user_other u pre b post : (euser b =? u) = false -> for_user u (pre ++ b :: post) = for_user u (pre ++ post).
+Proof. intros H. unfold for_user. rewrite !filter_app. cbn [filter]. rewrite H. reflexivity. Qed.
